@@ -14,6 +14,7 @@ Decided:
    corresponding accessor of the board (squares from colours x pieces, rights per colour, side,
    en passant via the canonical rank, both clocks) and build reads every builder field.
 Not decided: `builds <=> parses` as behaviour over all builder states."""
+from ..facts import callee_name as facts_callee
 from .. import sym, lift, setalg
 from . import gate as gatemod
 from .movegen import SELF, PIECE, COLOR
@@ -58,6 +59,8 @@ def stage_error_map(ctx, f, g, name, tag, depth=0):
                     culprit = e
         if ev[0] == "enum":
             variant = ev[2]
+        elif ev[0] == "errconv" and ev[1][0] == "enum" and b.locals[0]["ty"].endswith(", %s>" % ev[1][1]):
+            variant = ev[1][2]         # `?` on a Result that already carries the constructor's own error type
         elif ev[0] == "errconv":
             inner = ev[1]
             me = sym.subterms(inner, lambda x: x[0] == "call" and x[1].endswith("::map_err"))
@@ -115,6 +118,52 @@ def run(ctx):
         ctx.check(variants == {want}, "builder-error:%s" % stage, "a failure of %s (role %s) is reported as %s, expected %s" % (stage, role, sorted(map(str, variants)), want),
                   loc(bb), sample={"stage": stage, "role": role, "error": want})
     ctx.floor("builder stages with an error mapping", n, 5)
+    # ---- the builder installs each colour's rights slot by slot
+    ctx.rule("builder-rights-slotwise")
+    from .common import reachable_bodies
+    from .c06 import norm_each
+    EC0 = ("each", COLOR)
+    rights_writers = [w for w, r in g.wrole.items() if r == "castling"]
+    users = [k for k in reachable_bodies(f, [BUILDER + "::build"]) if k.startswith(BUILDER + "::")
+             and any(facts_callee(t_) in rights_writers for _, t_ in f.bodies[k].calls())]
+    nslot = 0
+    for k in users:
+        ub = f.bodies[k]
+        bname = ub.local_name(1)
+        ps_ = sym.SymExec(f, ub, inline=lambda n: False if n in g.W or g.validator_role(n) is not None else None).run()
+        per_colour = set()
+        for p in ps_:
+            calls_ = []
+            for e in p.events:
+                if e.kind == "call" and e.name in rights_writers:
+                    c_, w_, v_ = (norm_each(L.lift(a), f.adts) for a in e.args[1:4])
+                    calls_.append((c_, w_, v_))
+            if not calls_:
+                continue
+            # the value stored under wing w of colour c is the builder's own (c, w) entry: rights[c].short / .long
+            okp = True
+            for c_, w_, v_ in calls_:
+                wing = "short" if w_ == sym.TRUE else ("long" if w_ == sym.FALSE else None)
+                src = v_
+                okv = wing is not None and src[0] == "field" and src[2] == wing
+                if okv:
+                    ent = src[1]
+                    # builder.castle_rights[c as usize]   (the lifter shows the colour-indexed table as a getter application)
+                    okv = (ent[0] == "get" and ent[1] == "castle_rights" and ent[-1] == c_ and sym.contains(ent[2], lambda y: y == ("obj", bname))) or \
+                        (ent[0] == "index" and ent[2] == ("cast", "usize", ("discr", c_)) and sym.contains(ent[1], lambda y: y == ("obj", bname)))
+                okp = okp and okv
+                if okv:
+                    per_colour.add((repr(c_), wing))
+            nslot += len(calls_)
+            ctx.check(okp, "rights:slot-from-same-slot:%s" % k.rsplit("::", 1)[-1],
+                      "the builder does not install colour c's short/long right from its own (c, short)/(c, long) entry: %s"
+                      % [(sym.show(c_)[:30], sym.show(w_), sym.show(v_)[:80]) for c_, w_, v_ in calls_], loc(ub),
+                      sample={"builder": "set_castle_right(c, true, rights[c].short); set_castle_right(c, false, rights[c].long)"} if nslot <= 2 else None)
+        both = {w for c_, w in per_colour if c_ == repr(EC0)} == {"short", "long"} or \
+            {(c_, w) for c_, w in per_colour} >= {(repr(("enum", COLOR, n_)), w) for n_ in ("White", "Black") for w in ("short", "long")}
+        ctx.check(both, "rights:both-wings-all-colours:%s" % k.rsplit("::", 1)[-1],
+                  "the builder does not install both wings for every colour (%s)" % sorted(per_colour), loc(ub))
+    ctx.floor("castle-right installations in the builder", nslot, 2)
     ctx.rule("ep-rank-guard")
     guards = {}
     for name, tag in ((BUILDER + "::add_en_passant", "builder"), (B + "::parse_en_passant", "parser")):
